@@ -3,9 +3,10 @@ import CrabModel.Num.Outcome
 
 /-
   Model of `ikos::q_number` (include/crab/numbers/bignums.hpp, lib/bignums.cpp).
-  The wrapped `mpq_t` is the raw pair (numerator, denominator): `q_number(num, den)` stores the
-  pair unchanged (no `mpq_canonicalize`), `numerator()`/`denominator()`/`round_to_*` read the raw
-  fields, the arithmetic operators canonicalise copies of their operands first.
+  The wrapped `mpq_t` is the raw pair (numerator, denominator): `q_number(num, den)` raises
+  CRAB_ERROR on a zero denominator and canonicalises the pair (`mpq_canonicalize`),
+  `numerator()`/`denominator()`/`round_to_*` read the raw fields, the arithmetic operators
+  canonicalise copies of their operands first.
   GMP's exact rational arithmetic on canonical operands is core Lean's `Rat` (normalised
   fractions, positive denominator); the wrapper's own logic (canonicalisation, zero tests through
   `mpq_cmp` with `q_number(0.0)`, truncating division followed by the sign case in the rounding
@@ -34,10 +35,14 @@ def ofRat (r : Rat) : QNum := ⟨r.num, (r.den : Int)⟩
 /-- `q_number(const z_number&)` : `mpq_set_z` -/
 def ofZ (z : Int) : QNum := ⟨z, 1⟩
 
-/-- `q_number(const z_number &num, const z_number &den)` : the pair as given -/
-def mk' (n d : Int) : QNum := ⟨n, d⟩
+/-- `q_number(const z_number &num, const z_number &den)` :
+    CRAB_ERROR("q_number: zero denominator in constructor") when `den == 0`, otherwise the pair
+    is stored and put in canonical form by `mpq_canonicalize` (`none` = CRAB_ERROR) -/
+def mk? (n d : Int) : Option QNum :=
+  if d = 0 then none else some (ofRat (toRat ⟨n, d⟩))
 
-/-- `mpq_canonicalize`; GMP aborts (division by zero) on a zero denominator -/
+/-- `mpq_canonicalize` inside the operators; GMP aborts (division by zero) on a zero
+    denominator (no value built by the constructors has one) -/
 def canon (q : QNum) : Outcome QNum :=
   if q.den = 0 then .trap else .ok (ofRat (toRat q))
 
@@ -48,8 +53,9 @@ def gtZero (q : QNum) : Bool := q.num > 0
 def eqZero (q : QNum) : Bool := q.num == 0
 
 /-- `mpq_init(mp); mpq_set(mp, _n)` : the private copy the const operators work on.  `mpq_set`
-    copies the denominator through its signed size field; a non-positive denominator makes it
-    write out of bounds (observed: heap corruption / SIGSEGV on `q_number(1, -2) + q_number(1)`) -/
+    copies the denominator through its signed size field; a non-positive denominator would make
+    it write out of bounds (no value built by the constructors has one: `Canonical` holds of
+    every value of the class) -/
 def copyThis (q : QNum) : Outcome QNum :=
   if q.den ≤ 0 then .trap else .ok q
 
@@ -145,8 +151,8 @@ def mul2exp (q : QNum) (s : Nat) : QNum :=
 /-- `operator<<` : the shift amount must be an integer (`to_z_number`: CRAB_ERROR when
     `num % den != 0`, and through `z_number::operator/` when `den = 0`), then
     `mpq_mul_2exp(this, mpz_get_ui(shift))`; GMP reads the limbs of the denominator through its
-    signed size field, a non-positive denominator makes it read out of bounds (observed:
-    SIGSEGV on `q_number(40, -7) << 35`) -/
+    signed size field (a non-positive denominator, which no value of the class has, would make
+    it read out of bounds) -/
 def shl (a k : QNum) : Outcome QNum :=
   match ZNum.div? k.num k.den, ZNum.rem? k.num k.den with
   | some q, some r =>
